@@ -518,9 +518,9 @@ func TestVerifC06(t *testing.T) {
 	defer out.Close()
 	thorough := verifh.Tier() == "thorough"
 	rnd := verifh.NewRand(verifh.Seed())
-	budget := 400
+	budget := 1200
 	if thorough {
-		budget = 6000
+		budget = 20000
 	}
 
 	// (1) one conn, every combination of gates, callback actions, Close: complete enumeration
@@ -574,10 +574,10 @@ func TestVerifC06(t *testing.T) {
 		}
 	}
 	// (4) random schedules of random configurations
-	nrand := 150
+	nrand := 400
 	maxConns := 3
 	if thorough {
-		nrand = 4000
+		nrand = 20000
 		maxConns = 4
 	}
 	for k := 0; k < nrand; k++ {
